@@ -43,7 +43,26 @@ fn qual(a: &V, b: &V) -> &'static str {
                 ""
             }
         }
+        // The recorded finding for an integer kind against Float64 is exactly "n.cmp(n as f64) == Equal"; any
+        // other incoherence in the same cell (NaN, a fraction, a different number) is a different violation
+        // and must not be hidden by that entry.
+        (V::F64(x), other) | (other, V::F64(x)) => match int_as_f64(other) {
+            Some(n) if f64::from_bits(*x) != n => "/float-is-not-the-integer",
+            _ => "",
+        },
         _ => "",
+    }
+}
+
+/// The integer kinds converted to f64 the way `as f64` / `to_f64` does (round to nearest).
+fn int_as_f64(v: &V) -> Option<f64> {
+    match v {
+        V::I32(n) => Some(*n as f64),
+        V::I64(n) => Some(*n as f64),
+        V::U32(n) => Some(*n as f64),
+        V::U64(n) => Some(*n as f64),
+        V::BigInt(s) | V::BigUint(s) => s.parse::<f64>().ok(),
+        _ => None,
     }
 }
 
